@@ -513,7 +513,8 @@ inline std::vector<SvcEntry> buildSvcTable()
         size_t base = 0;
         AnalyserExternalVariablePtr ev;
         if (s.slot == 1) {
-            ev = AnalyserExternalVariable::create(s.bv);
+            // (bv2, where there is one, sits in a component whose own parent is gone: it has a parent but no model)
+            ev = AnalyserExternalVariable::create(s.variant % 2 != 0 && s.bv2 != nullptr ? s.bv2 : s.bv);
         }
         bool r = an->addExternalVariable(ev);
         chk(s, an, "analyser", "addExternalVariable(bad)", false);
@@ -700,6 +701,11 @@ inline std::vector<SvcEntry> buildSvcTable()
         size_t before = l.analyser->externalVariableCount();
         bool r = l.analyser->addExternalVariable(ev);
         s.expect(l.analyser->externalVariableCount() == before + (r ? 1 : 0), "addExternalVariable() returned " + str(r) + " but the count went from " + str(before) + " to " + str(l.analyser->externalVariableCount()));
+        bool inModel = false;
+        for (ParentedEntityPtr p = v->parent(); p != nullptr; p = p->parent()) {
+            inModel = inModel || std::dynamic_pointer_cast<Model>(p) != nullptr;
+        }
+        s.expect(inModel || !r, "addExternalVariable() accepted a variable that is in no model (its component, or the top of its hierarchy, is in none)");
         l.previous = v;
     });
     recv("Live.Analyser.lookups", K_VAR, 0, [=](Svc &s) {
@@ -718,6 +724,7 @@ inline std::vector<SvcEntry> buildSvcTable()
         bool has = l.analyser->containsExternalVariable(m, nameOf(c), v->name());
         auto ev = l.analyser->externalVariable(m, nameOf(c), v->name());
         s.expect(has == (ev != nullptr), "containsExternalVariable() and externalVariable() disagree");
+        s.expect(m != nullptr || (!has && ev == nullptr), "a null model was taken for the model of an external variable whose variable is in no model");
         for (size_t i = 0; i <= l.analyser->externalVariableCount(); ++i) {
             auto e = l.analyser->externalVariable(i);
             s.expect((e != nullptr) == (i < l.analyser->externalVariableCount()), "externalVariable(index) null-ness disagrees with the count");
